@@ -145,6 +145,8 @@ func genCfg(rnd *tr.Rand, focus string) *caseCfg {
 		case "readfrom-after-spill":
 			// a backlog spilled into the list part of the outbound buffer, a partial drain, then ReadFrom + Flush
 			c.sndbuf, c.wbufcap = 4096, 1024
+		case "onopen-big-reply":
+			c.sndbuf = 4096
 		case "accept-fatal":
 			// the third accept4 fails with EMFILE: the loop gives up (ErrAcceptSocket) while it owns two open
 			// connections; both must get their OnClose before Run returns
